@@ -269,11 +269,20 @@ func assemble(na datamodel.NodeAssembler, v val.V, p *Prog, depth int, foreign b
 		}
 		return la.Finish()
 	case val.Map:
-		ma, err := na.BeginMap(sizeHint(p, len(v.Ents)))
+		present := 0
+		for _, e := range v.Ents {
+			if e.V.K != val.Absent {
+				present++
+			}
+		}
+		ma, err := na.BeginMap(sizeHint(p, present))
 		if err != nil {
 			return err
 		}
 		for _, e := range v.Ents {
+			if e.V.K == val.Absent {
+				continue // an absent struct field is simply not assembled
+			}
 			var va datamodel.NodeAssembler
 			switch p.Next(3) {
 			case 0:
